@@ -236,7 +236,6 @@ def model(tree, opt, ext=None):
 
 
 def run(spec, ctx):
-    import zope.testrunner.find as ZF
     opt = spec['opt']
     top = ctx.scratch
     rng = random.Random(spec['seed'] * 131 + 5)
@@ -275,6 +274,8 @@ def run(spec, ctx):
         import importlib
         importlib.invalidate_caches()
         simos = fssim.SimOS(random.Random(spec['seed'] * 7 + k), shuffle=(k > 0))
+        core.prepare()      # (fresh runner modules for every execution: patch those)
+        ZF = sys.modules['zope.testrunner.find']
         old = ZF.os
         ZF.os = simos
         try:
